@@ -41,7 +41,7 @@ theorem getChannel_EOT : getChannel EOT = none := by decide
 /-! ## closed tracks -/
 
 theorem isClosed_concat (t : Track) (e : Event) : Track.isClosed (t ++ [e]) = (e.msg == EOT) := by
-  simp [Track.isClosed, List.getLast?_concat]
+  simp [Track.isClosed]
 
 theorem add_one (t : Track) (δ : Nat) (m : Msg) (h : t.isClosed = false) :
     t.add δ [m] = t ++ [⟨δ, m⟩] := by
@@ -68,8 +68,8 @@ theorem splitLoop_meta (a : Nat) (b : Buckets) (t : Track) :
   | cons e r ih =>
     simp only [splitLoop, absList]
     cases h : getChannel e.msg with
-    | none => simp [ih, List.filter_cons, h]
-    | some c => simp [ih, List.filter_cons, h]
+    | none => simp [ih, h]
+    | some c => simp [ih, h]
 
 theorem splitLoop_chans (a : Nat) (b : Buckets) (t : Track) (c : Nat) :
     (splitLoop a b t).chans[c]? =
@@ -100,9 +100,8 @@ theorem splitLoop_empty_chans (t : Track) :
   rw [splitLoop_chans]
   simp only [Buckets.empty, List.getElem?_replicate, List.getElem?_map]
   by_cases hc : c < 16
-  · simp [hc, List.getElem?_range hc]
-  · have : (List.range 16)[c]? = none := by simp; omega
-    simp [hc, this]
+  · simp [hc]
+  · simp [hc]
 
 /-! ## the re-delta loop -/
 
@@ -272,10 +271,10 @@ theorem chanLoop_eq (dest : File) (ls : List (List TE)) (h : dest.format = 1) :
     split
     · rename_i hl
       rw [ih]
-      · simp [File.addTrack, h, List.filter_cons, hl]
+      · simp [File.addTrack, h, hl]
       · simp [File.addTrack, h]
     · rename_i hl
       rw [ih _ h]
-      simp [List.filter_cons, hl]
+      simp [hl]
 
 end Midi.Convert
